@@ -12,6 +12,10 @@ let event_of_hex s =
     (match int_of_n k with
      | 0 -> EvLine rest
      | 1 -> EvInval | 2 -> EvTooLong | 3 -> EvIOErr | 4 -> EvTimeout | 5 -> EvClose
+     (* 1500 octets without CRLF, then close / silence: for net_read() this is the closed resp. silent end
+        (loop_long() reads on until the stream ends); kinds of their own in the harness because they take
+        the loop_long() path of lib/netio.c *)
+     | 6 -> EvClose | 7 -> EvTimeout
      | _ -> failwith "event kind")
 
 (* the harness runs the real need_recode()/send_plain(): only messages they pass through unchanged are supported *)
